@@ -50,6 +50,8 @@ type ReverseSuffixSetSearcher struct {
 	suffixLiterals *literal.Seq // All suffix literals
 	matchStartZero bool         // True if pattern starts with .* (match always starts at 0)
 	revCachePool   sync.Pool
+	fwdCachePool   sync.Pool
+	vmPool         sync.Pool // per-goroutine PikeVMs (a PikeVM keeps per-search state)
 }
 
 // NewReverseSuffixSetSearcher creates a reverse suffix set searcher.
@@ -124,175 +126,36 @@ func NewReverseSuffixSetSearcher(
 	s.revCachePool = sync.Pool{
 		New: func() any { return s.reverseDFA.NewCache() },
 	}
+	s.fwdCachePool = sync.Pool{
+		New: func() any { return s.forwardDFA.NewCache() },
+	}
+	s.vmPool = sync.Pool{
+		New: func() any { return nfa.NewPikeVM(s.forwardNFA) },
+	}
 	return s, nil
 }
 
-// Find searches using Teddy suffix prefilter + reverse DFA.
+// Find searches using Teddy suffix prefilter + reverse DFA and returns the
+// leftmost-first match.
 //
-// For greedy matching (like `.*`), we need to find the LAST matching suffix.
-// However, with multiple suffix lengths, we iterate through all candidates
-// and track the best (rightmost) match.
-// Includes anti-quadratic guard to prevent O(n^2) behavior with many suffix false positives.
+// Every match ends with one of the suffix literals, so the prefilter and the
+// reverse DFA decide quickly whether any match exists (the case this strategy
+// is for: large inputs with few or no matches). The span of the match is not
+// taken from the candidate - the first confirmed suffix need not end the match
+// regexp reports (`.+\.(ab|cd)` on "a.aba.cd" is one match, not two) - but
+// from the core engines: forward DFA from the search start for the
+// leftmost-first end, reverse DFA from that end for the start.
 func (s *ReverseSuffixSetSearcher) Find(haystack []byte) *Match {
-	if len(haystack) == 0 {
-		return nil
-	}
-
-	// Acquire cache once for the entire candidate loop
-	revCache := s.revCachePool.Get().(*lazy.DFACache)
-	defer s.revCachePool.Put(revCache)
-
-	// For greedy matching, find the LAST suffix candidate
-	// We scan forward and keep track of the last valid match
-	var lastMatch *Match
-	start := 0
-	minStart := 0 // Anti-quadratic guard for reverse scans
-
-	for {
-		// Find next suffix candidate
-		pos := s.prefilter.Find(haystack, start)
-		if pos == -1 {
-			break
-		}
-
-		// Get the length of the matched suffix literal
-		suffixLen := s.getSuffixLen(haystack, pos)
-		if suffixLen == 0 {
-			start = pos + 1
-			continue
-		}
-
-		suffixEnd := pos + suffixLen
-		if suffixEnd > len(haystack) {
-			suffixEnd = len(haystack)
-		}
-
-		// For unanchored patterns, .* cannot cross \n boundaries.
-		// Match starts at the beginning of the line containing the suffix.
-		if s.matchStartZero {
-			matchStart := lineStartBefore(haystack, 0, pos)
-			lastMatch = NewMatch(matchStart, suffixEnd, haystack)
-		} else {
-			// Use reverse DFA with anti-quadratic guard to find match start
-			matchStart := s.reverseDFA.SearchReverseLimited(revCache, haystack, 0, suffixEnd, minStart)
-			if matchStart == lazy.SearchReverseLimitedQuadratic {
-				// Quadratic behavior detected - fall back to PikeVM
-				pStart, pEnd, found := s.pikevm.Search(haystack)
-				if found {
-					return NewMatch(pStart, pEnd, haystack)
-				}
-				return lastMatch
-			}
-			if matchStart >= 0 {
-				lastMatch = NewMatch(matchStart, suffixEnd, haystack)
-			}
-			// Update anti-quadratic guard
-			if suffixEnd > minStart {
-				minStart = suffixEnd
-			}
-		}
-
-		start = pos + 1
-		if start >= len(haystack) {
-			break
-		}
-	}
-
-	return lastMatch
+	return s.FindAt(haystack, 0)
 }
 
-// FindAt searches for a match starting from position 'at'.
-// Includes anti-quadratic guard to prevent O(n^2) behavior with many suffix false positives.
+// FindAt returns the leftmost-first match starting at or after position 'at'.
 func (s *ReverseSuffixSetSearcher) FindAt(haystack []byte, at int) *Match {
-	if at >= len(haystack) {
+	start, end, found := s.FindIndicesAt(haystack, at)
+	if !found {
 		return nil
 	}
-
-	// Acquire cache once for the entire candidate loop
-	revCache := s.revCachePool.Get().(*lazy.DFACache)
-	defer s.revCachePool.Put(revCache)
-
-	searchStart := at
-	minStart := at // Anti-quadratic guard
-	for {
-		// Find next suffix candidate starting from searchStart
-		pos := s.prefilter.Find(haystack, searchStart)
-		if pos == -1 {
-			return nil
-		}
-
-		// Get the length of the matched suffix literal
-		suffixLen := s.getSuffixLen(haystack, pos)
-		if suffixLen == 0 {
-			searchStart = pos + 1
-			if searchStart >= len(haystack) {
-				return nil
-			}
-			continue
-		}
-
-		suffixEnd := pos + suffixLen
-		if suffixEnd > len(haystack) {
-			suffixEnd = len(haystack)
-		}
-
-		// For unanchored patterns, .* cannot cross \n boundaries.
-		// Match starts at the beginning of the line containing the suffix.
-		// For greedy semantics, find the LAST suffix on this line.
-		if s.matchStartZero {
-			matchStart := lineStartBefore(haystack, at, pos)
-			// Find line end
-			lineEndRel := bytes.IndexByte(haystack[pos:], '\n')
-			var lineEnd int
-			if lineEndRel == -1 {
-				lineEnd = len(haystack)
-			} else {
-				lineEnd = pos + lineEndRel
-			}
-			// Scan line for the last valid suffix candidate
-			lastSuffixEnd := suffixEnd
-			scan := pos + 1
-			for scan < lineEnd {
-				nextPos := s.prefilter.Find(haystack, scan)
-				if nextPos == -1 || nextPos >= lineEnd {
-					break
-				}
-				nextLen := s.getSuffixLen(haystack, nextPos)
-				if nextLen > 0 {
-					nextEnd := nextPos + nextLen
-					if nextEnd <= lineEnd {
-						lastSuffixEnd = nextEnd
-					}
-				}
-				scan = nextPos + 1
-			}
-			return NewMatch(matchStart, lastSuffixEnd, haystack)
-		}
-
-		// Use reverse DFA with anti-quadratic guard to find match start
-		matchStart := s.reverseDFA.SearchReverseLimited(revCache, haystack, at, suffixEnd, minStart)
-		if matchStart >= 0 {
-			return NewMatch(matchStart, suffixEnd, haystack)
-		}
-		if matchStart == lazy.SearchReverseLimitedQuadratic {
-			// Quadratic behavior detected - fall back to PikeVM
-			start, end, found := s.pikevm.SearchAt(haystack, at)
-			if found {
-				return NewMatch(start, end, haystack)
-			}
-			return nil
-		}
-
-		// Update anti-quadratic guard
-		if suffixEnd > minStart {
-			minStart = suffixEnd
-		}
-
-		searchStart = pos + 1
-		if searchStart >= len(haystack) {
-			return nil
-		}
-	}
+	return NewMatch(start, end, haystack)
 }
 
 // FindIndicesAt returns match indices - zero allocation version.
@@ -313,87 +176,81 @@ func (s *ReverseSuffixSetSearcher) FindIndicesAtWithCaches(haystack []byte, at i
 	return s.findIndicesAtImpl(haystack, at, revCache)
 }
 
-// findIndicesAtImpl is the shared implementation for FindIndicesAt and FindIndicesAtWithCaches.
+// candidateEndsMatch reports whether a match starting at or after 'at' ends
+// with a suffix literal occurring at pos. Several literals can occur at the
+// same position (".aa" and ".aaa"), each with its own end.
+// Returns quadratic=true when a reverse scan was cut short by the guard.
+func (s *ReverseSuffixSetSearcher) candidateEndsMatch(haystack []byte, at, pos, minStart int, revCache *lazy.DFACache) (confirmed, quadratic bool, maxEnd int) {
+	maxEnd = pos
+	for i := 0; i < s.suffixLiterals.Len(); i++ {
+		lit := s.suffixLiterals.Get(i).Bytes
+		if !bytes.HasPrefix(haystack[pos:], lit) {
+			continue
+		}
+		suffixEnd := pos + len(lit)
+		if suffixEnd > maxEnd {
+			maxEnd = suffixEnd
+		}
+		r := s.reverseDFA.SearchReverseLimited(revCache, haystack, at, suffixEnd, minStart)
+		if r >= 0 {
+			return true, false, maxEnd
+		}
+		if r == lazy.SearchReverseLimitedQuadratic {
+			quadratic = true
+		}
+	}
+	return false, quadratic, maxEnd
+}
+
+// findIndicesAtImpl is the shared implementation of every find entry point.
 func (s *ReverseSuffixSetSearcher) findIndicesAtImpl(haystack []byte, at int, revCache *lazy.DFACache) (start, end int, found bool) {
 	if at >= len(haystack) {
 		return -1, -1, false
 	}
 
+	// Phase 1 (filter): does some suffix occurrence end a match?
 	searchStart := at
 	minStart := at // Anti-quadratic guard
 	for {
-		// Find next suffix candidate starting from searchStart
 		pos := s.prefilter.Find(haystack, searchStart)
 		if pos == -1 {
 			return -1, -1, false
 		}
 
-		// Get the length of the matched suffix literal
-		suffixLen := s.getSuffixLen(haystack, pos)
-		if suffixLen == 0 {
-			searchStart = pos + 1
-			if searchStart >= len(haystack) {
-				return -1, -1, false
-			}
-			continue
-		}
-
-		suffixEnd := pos + suffixLen
-		if suffixEnd > len(haystack) {
-			suffixEnd = len(haystack)
-		}
-
-		// For unanchored patterns, .* cannot cross \n boundaries.
-		// Match starts at the beginning of the line containing the suffix.
-		// For greedy semantics, find the LAST suffix on this line.
-		if s.matchStartZero {
-			matchStart := lineStartBefore(haystack, at, pos)
-			lineEndRel := bytes.IndexByte(haystack[pos:], '\n')
-			var lineEnd int
-			if lineEndRel == -1 {
-				lineEnd = len(haystack)
-			} else {
-				lineEnd = pos + lineEndRel
-			}
-			lastSuffixEnd := suffixEnd
-			scan := pos + 1
-			for scan < lineEnd {
-				nextPos := s.prefilter.Find(haystack, scan)
-				if nextPos == -1 || nextPos >= lineEnd {
-					break
-				}
-				nextLen := s.getSuffixLen(haystack, nextPos)
-				if nextLen > 0 {
-					nextEnd := nextPos + nextLen
-					if nextEnd <= lineEnd {
-						lastSuffixEnd = nextEnd
-					}
-				}
-				scan = nextPos + 1
-			}
-			return matchStart, lastSuffixEnd, true
-		}
-
-		// Use reverse DFA with anti-quadratic guard to find match start
-		matchStart := s.reverseDFA.SearchReverseLimited(revCache, haystack, at, suffixEnd, minStart)
-		if matchStart >= 0 {
-			return matchStart, suffixEnd, true
-		}
-		if matchStart == lazy.SearchReverseLimitedQuadratic {
-			// Quadratic behavior detected - fall back to PikeVM
-			return s.pikevm.SearchAt(haystack, at)
+		confirmed, quadratic, maxEnd := s.candidateEndsMatch(haystack, at, pos, minStart, revCache)
+		if confirmed || quadratic {
+			break
 		}
 
 		// Update anti-quadratic guard
-		if suffixEnd > minStart {
-			minStart = suffixEnd
+		if maxEnd > minStart {
+			minStart = maxEnd
 		}
-
 		searchStart = pos + 1
 		if searchStart >= len(haystack) {
 			return -1, -1, false
 		}
 	}
+
+	// Phase 2 (core): leftmost-first end from 'at', then the start for that end.
+	fwdCache := s.fwdCachePool.Get().(*lazy.DFACache)
+	end = s.forwardDFA.SearchAt(fwdCache, haystack, at)
+	s.fwdCachePool.Put(fwdCache)
+	if end < 0 {
+		return -1, -1, false
+	}
+	if end == at {
+		return at, at, true // empty match: nothing to scan backwards
+	}
+	start = s.reverseDFA.SearchReverse(revCache, haystack, at, end)
+	if start < 0 {
+		// The two automata disagree: let the NFA simulation decide
+		vm := s.vmPool.Get().(*nfa.PikeVM)
+		start, end, found = vm.SearchAt(haystack, at)
+		s.vmPool.Put(vm)
+		return start, end, found
+	}
+	return start, end, true
 }
 
 // IsMatch checks if the pattern matches using suffix set prefilter.
@@ -415,34 +272,21 @@ func (s *ReverseSuffixSetSearcher) IsMatch(haystack []byte) bool {
 			return false
 		}
 
-		suffixLen := s.getSuffixLen(haystack, pos)
-		if suffixLen == 0 {
-			start = pos + 1
-			if start >= len(haystack) {
-				return false
-			}
-			continue
-		}
-
-		revEnd := pos + suffixLen
-		if revEnd > len(haystack) {
-			revEnd = len(haystack)
-		}
-
-		// Use reverse DFA with anti-quadratic guard to check if pattern matches
-		revResult := s.reverseDFA.SearchReverseLimited(revCache, haystack, 0, revEnd, minStart)
-		if revResult >= 0 {
+		confirmed, quadratic, maxEnd := s.candidateEndsMatch(haystack, 0, pos, minStart, revCache)
+		if confirmed {
 			return true
 		}
-		if revResult == lazy.SearchReverseLimitedQuadratic {
-			// Quadratic behavior detected - fall back to PikeVM
-			_, _, matched := s.pikevm.Search(haystack)
+		if quadratic {
+			// Scan cut short by the guard: the forward DFA decides
+			fwdCache := s.fwdCachePool.Get().(*lazy.DFACache)
+			matched := s.forwardDFA.IsMatch(fwdCache, haystack)
+			s.fwdCachePool.Put(fwdCache)
 			return matched
 		}
 
 		// Update anti-quadratic guard
-		if revEnd > minStart {
-			minStart = revEnd
+		if maxEnd > minStart {
+			minStart = maxEnd
 		}
 
 		start = pos + 1
